@@ -233,7 +233,7 @@ def main():
             import magic
             nums = magic.new_literals(os.path.join(R.LEAN, 'CosetGen', 'Inventory.lean'), os.path.join(VERIF, 'pinned', 'CosetGen', 'Inventory.lean'))
             strs, chrs = magic.new_texts(os.path.join(R.LEAN, 'CosetGen', 'Inventory.lean'), os.path.join(VERIF, 'pinned', 'CosetGen', 'Inventory.lean'))
-            if nums or strs:
+            if nums or strs or chrs:
                 mops = magic.magic_ops(nums[:12]) + magic.text_ops(strs, chrs)
                 ml = [o['op'] for o in mops]
                 mi, _ = R.run_impl(ml)
